@@ -9,7 +9,7 @@ func init() {
 			"the keeper passes to the state-change helpers the values it gave to / received from the pool model; the taker fee is the exact difference between what the trader pays and what reaches the pool, and exactly that fee is sent to the collector; the router hands the pool the after-fee coin.",
 		NotCovered:  []string{"bank balance = reported reserves over histories (direct sends are allowed by the statement)", "supply of non-share tokens (bank module semantics)", "cosmwasm pools", "pool-model internals (C04)"},
 		Assumptions: []string{"bank keeper MintCoins/BurnCoins/SendCoins semantics"},
-		MinObl:      70,
+		MinObl:      74,
 		Run:         runC02,
 	})
 }
@@ -19,6 +19,8 @@ func runC02(c *rules.Ctx) {
 	// ---- swap
 	gammSwapSettleRules(c)
 	gammStateChangeCheckedRules(c)
+	cfmmUsedAmountRules(c)
+	balancerShareBookRules(c)
 	const SI = K + "SwapExactAmountIn"
 	c.Let("OUTCOIN", "gammtypes.CFMMPoolI.SwapOutAmtGivenIn(gammkeeper.asCFMMPool(pool)#0, ctx, list(tokenIn), tokenOutDenom, spreadFactor)#0")
 	c.CheckedCallOpt(SI, "gammkeeper.Keeper.updatePoolForSwap", []string{"k", "ctx", "pool", "sender", "tokenIn", "{OUTCOIN}"}, "the coins moved are the caller's token-in and the coin the pool model returned for it", "", false)
